@@ -84,6 +84,30 @@ def run_c18(pid, spec, tier, seed, replay=None):
     return {"violations": viols, "crashes": crashes, "coverage": cov, "trace_files": []}
 
 
+def run_c05(pid, spec, tier, seed, replay=None):
+    """C05: (1) the sender core: TLC checks FlowSender.tla exhaustively (safety + liveness), every transition of
+    its stepped state graph is replayed against the real defaultSender through the yield gates and the recordings
+    are validated by TLC; (2) tunnel level: flow families validated by the trace specification; (3) thorough:
+    Apalache proves the credit-conservation invariant of FlowAbs.tla inductive for arbitrary window / sizes."""
+    from . import flow
+    res = run(pid, dict(spec, runner=None), tier, seed, replay)
+    if replay:
+        return res
+    binary = orch.build_harness()
+    d = orch.fresh_dir("run-%s-%s-core" % (pid, tier))
+    viols, cov, states, trans = flow.run(tier, binary, d)
+    res["violations"] += viols
+    res["coverage"].update(cov)
+    res["coverage"]["states"] += states
+    res["coverage"]["transitions"] += trans
+    if True:
+        res["coverage"]["apalache"] = flow.apalache()
+        if res["coverage"]["apalache"].get("failed"):
+            res["violations"].append({"formula": "C05_Model_FlowAbsInductive", "detail": str(res["coverage"]["apalache"])[:300],
+                                      "scenario": {"name": "FlowAbs induction"}, "trace_file": None, "trace": None, "line": 0, "k": None})
+    return res
+
+
 HANG = "fatal error: all goroutines are asleep - deadlock!"
 
 PROPS = {
@@ -125,6 +149,10 @@ PROPS = {
     "C09": {"level": "model_checking", "hang": True,
             "quick": lambda s: gen.fam_hostile_srv(s) + gen.fam_hostile_cli(s),
             "thorough": lambda s: gen.fam_hostile_srv(s) + gen.fam_hostile_cli(s)},
+    "C05": {"level": "model_checking", "runner": run_c05, "hang": True, "also": ["C03_BystandersComplete", "C06_SenderWithinWindow", "C06_CreditBounded"],
+            "quick": lambda s: gen.fam_flow(s, 48) + gen.fam_data(s, 16),
+            "thorough": lambda s: gen.fam_flow(s, 400) + gen.fam_data(s, 100, big=True),
+            "technique": "TLC model checking of FlowSender.tla + exhaustive gated replay of its state graph against the real sender (trace validation); tunnel-level trace validation; Apalache induction on FlowAbs.tla (thorough)"},
     "C18": {"level": "model_checking", "runner": run_c18, "engine": "tlc-grpc-timeout",
             "technique": "TLA+ reference function (GrpcTimeout.tla); TLC enumerates the input domain and validates every observed handler deadline",
             "text": "the gRPC wire rule for grpc-timeout is a total TLA+ function; TLC enumerates the structured input domain completely, each input is executed "
